@@ -30,9 +30,15 @@ def _fresh_areas(mesh, quad):
 OTHER = {"t4": ("gaussian", 2), "g3": ("triangular", 4), "g10": ("triangular", 1), "t8": ("gaussian", 5), "t1": ("triangular", 12), "g1": ("triangular", 8)}
 
 
-def _array(ux, np, g, table, lead, dims, name, dtype):
+def _array(ux, np, g, table, lead, dims, name, dtype, layout="last", storage="numpy"):
     a = np.array(table, dtype=np.int64).reshape(tuple(lead) + (len(table[0]),))
     a = a.astype({"int64": np.int64, "float32": np.float32, "float64": np.float64, "bool": np.bool_}[dtype])
+    if layout == "first":
+        a = np.ascontiguousarray(np.moveaxis(a, -1, 0))      # element dimension first, leading dims after it
+    if storage == "dask":
+        import dask.array as dsa
+
+        a = dsa.from_array(a, chunks=tuple(max(1, (n + 1) // 2) for n in a.shape) if a.ndim else ())
     return ux.UxDataArray(a, dims=list(dims), name=name, uxgrid=g)
 
 
@@ -58,6 +64,10 @@ def integrate_case(case):
         "is_uxda": False,
         "shape": [],
         "q": [X.CAP, X.CAP],
+        "api": case["api"],
+        "layout": case["layout"],
+        "storage": case["storage"],
+        "square": bool(case["square"]),
     }
     rule, order = X.RULE_NAMES[case["quad"]]
     try:
@@ -69,7 +79,11 @@ def integrate_case(case):
             _ = g.face_areas
         elif case["prev"] == "compute_other":
             g.compute_face_areas(*OTHER[case["quad"]])
-        da = _array(ux, np, g, case["table"], case["lead"], case["dims"], case["name"], case["dtype"])
+        da = _array(ux, np, g, case["table"], case["lead"], case["dims"], case["name"], case["dtype"], case["layout"], case["storage"])
+        if case["storage"] == "dask" and not hasattr(da.data, "dask"):
+            return {"machinery": "case %s: the array is not dask-backed" % case["id"]}
+        if case["api"] == "dataset":
+            da = ux.UxDataset({case["name"]: da}, uxgrid=g)
     except Exception as e:  # noqa
         return {"machinery": "could not set up case %s: %s: %s" % (case["id"], type(e).__name__, str(e)[:200])}
     try:
@@ -84,9 +98,9 @@ def integrate_case(case):
         rec["name"] = "" if getattr(r, "name", None) is None else str(r.name)
         rec["same_grid"] = getattr(r, "uxgrid", None) is g
         rec["shape"] = [int(s) for s in np.shape(getattr(r, "values", r))]
-        if exp["outcome"] == "Value" and rec["shape"] == list(exp["shape"]):
+        if exp["outcome"] != "Rejected" and rec["shape"] == list(exp["shape"]):
             areas, total = _fresh_areas(mesh, case["quad"])
-            got = _flat(np, r)
+            got = _flat(np, r) if hasattr(r, "values") else [float(v) for v in np.asarray(r, dtype=float).reshape(-1)]
             qs = []
             for row, v in zip(exp["coeff"], got):
                 e = math.fsum(c * a for c, a in zip(row, areas))
